@@ -3,7 +3,7 @@ import copy
 from datetime import timedelta
 
 from .. import hooks
-from ..gen import canon, dt_us, floor_ms, mk_event, rand_grid, td_us
+from ..gen import ZONE_TRANSITIONS, canon, dt_us, floor_ms, mk_event, rand_grid, td_us, zones_available
 from ..model import ref_heartbeat_merge, ref_reduce
 from ._tx import exc_viol, tmod
 
@@ -13,7 +13,8 @@ ANCHOR_FILES = ["aw_transform/heartbeats.py"]
 REQUIRED_COUNTERS = ["monitor.heartbeat_merge", "monitor.heartbeat_reduce"]
 RULE = ("pairs/lists of events on a small ms grid (any order, overlaps, zero/negative durations, equal timestamps, "
         "boundary equalities s2 == e1+p ± 1µs/1ms) × pulsetimes {0, fractional, large}; non-trivial = data equal for "
-        "at least one neighbouring pair; signature = (data-equal, sign(s2-s1), sign(s2-(e1+p)), sign(d1), sign(e2-e1)) "
+        "at least one neighbouring pair; a tenth of the cases hand the timestamps in as aware datetimes of an IANA zone with DST rules, "
+        "hours around a transition; signature = (data-equal, sign(s2-s1), sign(s2-(e1+p)), sign(d1), sign(e2-e1)) "
         "per pair, merge-decision string per list")
 ASSUMPTIONS = ["pulsetimes are generated so that timedelta(seconds=p) is exact at µs",
                "data equality is Python dict equality on data drawn from pools without 1/1.0/True ambiguity"]
@@ -127,6 +128,15 @@ def _pulse(rng):
 def gen_case(rng, ctx):
     base, unit = rand_grid(rng)
     p, pu = _pulse(rng)
+    zone = None
+    if rng.random() < 0.12 and zones_available():
+        # timestamps handed in as aware datetimes of a DST zone, hours around a transition
+        zone = rng.choice(sorted(ZONE_TRANSITIONS))
+        unit = rng.choice([60 * 10**6, 1800 * 10**6, 3600 * 10**6])
+        base = rng.choice(ZONE_TRANSITIONS[zone]) * 10**6 - rng.randrange(0, 6) * unit
+        if rng.random() < 0.5:
+            pu = rng.choice([0, 500000, 60 * 10**6, 3600 * 10**6])
+            p = pu / 10**6
     if rng.random() < 0.75:
         s1 = rng.randrange(0, 12)
         d1 = rng.choice([0, 0, 1, 2, 3, 5, -1, -2]) * unit + rng.choice([0, 0, 0, 1, -1, 999, 500])
@@ -142,14 +152,16 @@ def gen_case(rng, ctx):
         d2 = rng.choice([0, 0, 1, 2, 4, 9, -1]) * unit + rng.choice([0, 0, 1, 999])
         x1 = rng.choice(_DATA)
         x2 = x1 if rng.random() < 0.7 else rng.choice(_DATA)
-        return dict(kind="pair", p=p, e1=dict(ts=base + s1 * unit, dur=d1, data=x1),
-                    e2=dict(ts=max(0, s2), dur=d2, data=x2))
+        z1 = zone
+        z2 = zone if rng.random() < 0.5 else None
+        return dict(kind="pair", p=p, e1=dict(ts=base + s1 * unit, dur=d1, data=x1, zone=z1),
+                    e2=dict(ts=max(0, s2), dur=d2, data=x2, zone=z2))
     n = rng.randrange(0, 9)
     evs = []
     pos = rng.randrange(0, 5)
     for _ in range(n):
         d = rng.choice([0, 0, 1, 1, 2, 3, -1]) * unit
-        evs.append(dict(ts=base + pos * unit, dur=d, data=rng.choice(_DATA[:3])))
+        evs.append(dict(ts=base + pos * unit, dur=d, data=rng.choice(_DATA[:3]), zone=zone if rng.random() < 0.7 else None))
         step = rng.choice([0, 1, 1, 2, 3, -1, -2, 5])
         pos = max(0, pos + step)
         if rng.random() < 0.3:   # land exactly on the pulse boundary of the previous end
